@@ -278,17 +278,17 @@ theorem fields_bm : (persistedOf bmLive).isPerm bmJson = true := by decide
 theorem transient_exist : transient.all (fun t => (machineLive.map (·.1)).contains t) = true := by
   decide
 
-/-- the model's records have exactly the fields of the Go structs -/
+/-- the model's records have exactly the fields of the Go structs (declaration order is free) -/
 theorem model_fields_machine :
-    machineLive.map (·.1) =
+    (machineLive.map (·.1)).isPerm
       ["Modes", "CpID", "Rsize", "R", "N", "M", "Op", "Threaded", "SharedHDLOps", "O", "L",
-       "Shared_constraints", "Tag", "WordSize", "Slocs", "Vars"] := by decide
+       "Shared_constraints", "Tag", "WordSize", "Slocs", "Vars"] = true := by decide
 
 theorem model_fields_bm :
-    bmLive.map (·.1) =
+    (bmLive.map (·.1)).isPerm
       ["Rsize", "Domains", "Processors", "Inputs", "Outputs", "Internal_inputs",
-       "Internal_outputs", "Links", "Shared_objects", "Shared_links"] ∧
-    bondFields = [("Map_to", "uint8"), ("Res_id", "int"), ("Ext_id", "int")] := by decide
+       "Internal_outputs", "Links", "Shared_objects", "Shared_links"] = true ∧
+    bondFields.isPerm [("Map_to", "uint8"), ("Res_id", "int"), ("Ext_id", "int")] = true := by decide
 
 /-- every persisted field is assigned from the field of the same name, and nothing else is
     assigned, in each of the four hand-written copy functions (flow extracted by go/ast) -/
@@ -301,10 +301,14 @@ theorem copies_machine_dejsoner : copiesExactly machineJson machineDejsonerAssig
 theorem copies_bm_jsoner : copiesExactly bmJson bmJsonerAssigns = true := by decide
 theorem copies_bm_dejsoner : copiesExactly bmJson bmDejsonerAssigns = true := by decide
 
+/-- same struct names in the same (sorted) order, same fields up to declaration order -/
+def sameStructs (a b : List (String × List (String × String))) : Bool :=
+  a.length == b.length && (a.zip b).all fun p => p.1.1 == p.2.1 && p.1.2.isPerm p.2.2
+
 /-- the shared-object instance structs carry exactly the parameters the model's `SO` has
     (a parameter added to a struct but not to `String()`/`Instantiate()` would be lost) -/
 theorem so_instance_fields :
-    soInstances =
+    sameStructs soInstances
       [("Barrier_instance", [("Shared_element", "Shared_element"), ("Timeout", "int")]),
        ("Channel_instance", [("Shared_element", "Shared_element")]),
        ("Kbd_instance", [("Shared_element", "Shared_element"), ("Depth", "int")]),
@@ -313,9 +317,9 @@ theorem so_instance_fields :
        ("Sharedmem_instance", [("Shared_element", "Shared_element"), ("Depth", "int")]),
        ("Stack_instance", [("Shared_element", "Shared_element"), ("Depth", "int")]),
        ("Uart_instance", [("Shared_element", "Shared_element"), ("Depth", "int"), ("BaudRate", "int")]),
-       ("Vtextmem_instance", [("Shared_element", "Shared_element"), ("Boxes", "[]GraphBox")])] ∧
-    graphBoxFields =
-      [("CP", "int"), ("Left", "int"), ("Top", "int"), ("Width", "int"), ("Height", "int")] := by
+       ("Vtextmem_instance", [("Shared_element", "Shared_element"), ("Boxes", "[]GraphBox")])] = true ∧
+    graphBoxFields.isPerm
+      [("CP", "int"), ("Left", "int"), ("Top", "int"), ("Width", "int"), ("Height", "int")] = true := by
   decide
 
 /-- order of the global registries (first match wins in both) -/
